@@ -403,6 +403,7 @@ type accessPath struct {
 	src  string
 	want model.Value
 	fail bool
+	arr  *model.Value // for a ".len()" path: the array itself
 }
 
 // paths enumerates access paths into the view: dot syntax, index syntax and
@@ -442,7 +443,8 @@ func pathsInto(r *rand.Rand, root string, v model.Value, hidden []string) []acce
 				walk(fmt.Sprintf("%s[%d]", prefix, i), e, depth+1)
 			}
 			out = append(out, accessPath{src: fmt.Sprintf("%s[%d]", prefix, len(v.A)), want: model.Nil}, accessPath{src: prefix + "[-1]", want: model.Nil})
-			out = append(out, accessPath{src: prefix + ".len()", want: model.Int(int64(len(v.A)))})
+			arr := v
+			out = append(out, accessPath{src: prefix + ".len()", want: model.Int(int64(len(v.A))), arr: &arr})
 		default:
 			out = append(out, accessPath{src: prefix, want: v})
 		}
@@ -574,6 +576,7 @@ func init() {
 						}
 					}
 					paths := pathsInto(c.Rng, "v", gv.view, gv.hiddenNames)
+					allPaths := append([]accessPath{}, paths...)
 					if len(paths) > 24 {
 						c.Rng.Shuffle(len(paths), func(a, b int) { paths[a], paths[b] = paths[b], paths[a] })
 						paths = paths[:24]
@@ -594,6 +597,27 @@ func init() {
 						case !p.fail && got.Out != "\x01"+p.want.Print()+"\x02":
 							c.Violation("wrong-leaf:"+p.want.K.String(), fmt.Sprintf("%s rendered %q, the Go value holds %q", p.src, got.Out, p.want.Print()), map[string]any{"path": p.src, "data": desc})
 						}
+					}
+					// arrays inside the data after built-ins that look mutating ran on them in the same render:
+					// every position still shows what the Go value holds
+					for _, p := range allPaths {
+						if p.arr == nil || len(p.arr.A) < 2 {
+							continue
+						}
+						a := strings.TrimSuffix(p.src, ".len()")
+						p.want = *p.arr
+						pre := "{{ " + a + ".shuffle().len() }}{{ " + a + ".slice(0, 1).append(\"<x>\").len() }}{{ " + a + ".reverse().len() }}{{ " + a + ".prepend(0).len() }}{{ " + a + ".slice(1).prepend(1).len() }}{{ " + a + ".append(1).append(2).len() }}"
+						src := pre + "\x01{{ " + a + " }}\x02"
+						c.Input(map[string]any{"source": src, "data": desc})
+						got := evalString(c, src, data)
+						c.Nontrivial("after-builtins|" + a + "|" + desc)
+						if got.Panicked {
+							continue
+						}
+						if i1 := strings.Index(got.Out, "\x01"); got.Err != nil || i1 < 0 || got.Out[i1:] != "\x01"+p.want.Print()+"\x02" {
+							c.Violation("array-changed-by-builtins", fmt.Sprintf("after shuffle/slice+append/reverse/prepend on %s it renders %s, the Go value holds %q", a, got.Describe(), p.want.Print()), map[string]any{"path": a, "data": desc})
+						}
+						break
 					}
 					// the whole value through functions that look mutating, then immutability
 					for _, src := range []string{"{{ v }}", "@dump(v)", "@each(e in v){{ e }}@end", "{{ v.reverse().append(1) }}", "{{ x = v }}{{ x = v }}"} {
